@@ -375,3 +375,7 @@ Section IndexMore.
   Definition umap_reserve {A} (ix : list (K * A)) (n : nat) : res nat :=
     match ix with [] => Ok n | _ => UB "reserve on a non-empty index: a rehash invalidates stored iterators" end.
 End IndexMore.
+
+(* a pointer to an element of the container: None is nullptr; dereferencing a null pointer is undefined *)
+Definition ptr_deref (p : option nat) : res nat :=
+  match p with Some i => Ok i | None => UB "null pointer dereference" end.
